@@ -34,6 +34,7 @@ CONSTANTS Mode,        \* "res" (Result histories) or "ma" (moving_average table
           Salts,       \* reward patterns
           MaxLen,      \* evaluation lengths are 1..MaxLen
           LenMode,     \* "all": every length function;  "pat": the functions of LenPats
+          LenPats,     \* <<a,b,c,d>>: the evaluation <<e,l,v>> has 1 + (a*e + b*l + c*v + d) % MaxLen rows
           MaxMissing,  \* at most this many triples of the full grid are missing
           TabFull,     \* subset of BOOLEAN: TRUE = the parameter tables hold every id of the grid
                        \* (an id without interaction rows = a triple whose evaluation failed)
@@ -186,7 +187,6 @@ Step(op, args, evf, alts, tb, fl, flags, raw) ==
   [op |-> op, args |-> args, ev |-> EvSet(evf), alts |-> {EvSet(a) : a \in alts}, tmax |-> tb, full |-> fl,
    flags |-> flags, raw |-> raw]
 
-LenPats == {<<0,0,0,1>>, <<1,0,0,0>>, <<0,1,0,0>>, <<1,1,1,0>>, <<1,2,0,1>>, <<2,1,1,0>>}
 Shapes(d) == {S \in SUBSET Triples(d) : S # {} /\ Cardinality(Triples(d) \ S) <= MaxMissing}
 Lens(S) == IF LenMode = "all" THEN [S -> 1..MaxLen]
            ELSE {[t \in S |-> 1 + ((q[1]*t[1] + q[2]*t[2] + q[3]*t[3] + q[4]) % MaxLen)] : q \in LenPats}
